@@ -384,6 +384,7 @@ func checkC13(c *Ctx, r *Report) {
 	deadlineWriters(c, r, "C13.R3.deadline-writers")
 	drainChannelCaptured(c, r, "C13.R1.drain-channel-captured")
 	onceUnlockOnly(c, r, "C13.R2.once-unlock-only")
+	round12(c, r, "C13")
 }
 
 func fnDisplay(f *ssa.Function) string {
